@@ -274,6 +274,8 @@ class Design:
     comp = b['comp']
     op = '<<=' if b['kind'] == 'ff' else '@='
     lines = [f"    @{'update_ff' if b['kind'] == 'ff' else 'update'}", f"    def {b['name']}():"]
+    if b.get('body'):          # a block whose Python text is not the assignment list spelled out (variable-index writes)
+      return lines + ['      ' + ln for ln in b['body']]
     for i, (t, e) in enumerate(b['asgs']):
       tgt = self.ref(comp, t)
       st = b.get('styles', {}).get(i)
@@ -490,8 +492,44 @@ def make_net(d, comp=''):
   if wg == g: return
   add_net(d, (g, lo, w), writer, flipped=rng.random() < 0.5, style=rng.randint(0, 1), host=comp)
 
+def make_var_index_write(d):
+  """default-then-override through a signal-valued index: `for i in range(n): s.wl[i] @= dflt` ; `s.wl[s.sel] @= x`.
+  Model: wl[k] = mux(sel == k, x, dflt) for the reachable k (parallel assignment; x and sel do not read the list)."""
+  rng = d.rng
+  lists = {}
+  for sg in d.sigs:
+    mm = re.match(r'(\w+)\[(\d+)\]$', sg.name)
+    if mm and sg.comp == '' and sg.kind in ('wire', 'out') and sg.stype is None: lists.setdefault(mm.group(1), []).append(sg)
+  drv = {g for (g, _, _) in d.driven}
+  lists = {b: sorted(v, key=lambda x: int(re.search(r'\[(\d+)\]$', x.name).group(1))) for b, v in lists.items()
+           if not any(x.idx in drv or x.idx in d.regs for x in v)}
+  if not lists: return False
+  base = rng.choice(sorted(lists)); elems = lists[base]
+  w = elems[0].width
+  mine = {x.idx for x in elems}
+  readable = [r for r in d.readable_from('') if r[0] not in mine]
+  nb = 2 if len(elems) >= 4 and rng.random() < 0.6 else 1
+  sels = [(g, l, x) for (g, l, x) in readable if x == nb and (l, l + x) in d.leaf_bounds(d.sigs[g]) and d.sigs[g].name != 'reset']
+  if not sels or not readable: return False
+  sel = rng.choice(sels)
+  x = d.gen_expr(w, readable, rng.randint(0, 2))
+  dflt = ('c', w, rng.choice([0, 0, (1 << w) - 1, rng.getrandbits(w)]))
+  n = min(len(elems), 1 << nb)
+  asgs = []
+  for k, el in enumerate(elems):
+    e = ('m', ('b', 'eq', nb, ('r',) + sel, ('c', nb, k)), x, dflt) if k < n else dflt
+    asgs.append(((el.idx, 0, w), e))
+  bid = d.new_id()
+  body = [f'for i in range({len(elems)}):', f'  s.{base}[i] @= {d.py_expr("", dflt)}',
+          f's.{base}[{d.ref("", sel)}] @= {d.py_expr("", x)}']
+  for (t, _) in asgs: d.driven.append(t)
+  for (t, _) in asgs: d.avail.append(t)
+  d.blocks.append({'id': bid, 'name': f'blk_{bid}', 'comp': '', 'kind': 'comb', 'asgs': asgs, 'styles': {}, 'body': body})
+  return True
+
 def make_comb(d, comp):
   rng = d.rng
+  if comp == '' and rng.random() < 0.12 and make_var_index_write(d): return
   free = d.free_ranges(lambda s: d.can_write(comp, s))
   if not free: return
   readable = d.readable_from(comp)
